@@ -837,7 +837,12 @@ def _cos_sin(a):
         if c.is_Rational and s.is_Rational:
             return Sym(c), Sym(s)
         if active():
-            # algebraic values such as cos(pi/4) become atoms with their defining relation
+            # values built from square roots of rationals (cos(pi/4), cos(pi/6), ...) are written
+            # over sqrt atoms: r**2 = q, r >= 0
+            ca, sa = _sqrt_numbers_to_atoms(c), _sqrt_numbers_to_atoms(s)
+            if ca is not None and sa is not None:
+                return Sym(ca), Sym(sa)
+            # other algebraic values become atoms with their defining relation
             p = current()
             cc, ss = _trig_atom(p, e)
             _note_numeric(p, cc, float(c))
@@ -871,6 +876,29 @@ def _cos_sin(a):
             sn = -sn
         cc, ss = sp.expand(cc * cn - ss * sn), sp.expand(ss * cn + cc * sn)
     return Sym(cc), Sym(ss)
+
+
+def _sqrt_numbers_to_atoms(x):
+    """rewrite a closed expression made of rationals and square roots of positive rationals over
+    sqrt atoms; None if it contains anything else"""
+    x = sp.sympify(x)
+    ok = [True]
+
+    def rec(e):
+        if e.is_Rational:
+            return e
+        if e.is_Pow and e.args[1] == sp.Rational(1, 2) and e.args[0].is_Rational and e.args[0] > 0:
+            return s_sqrt(Sym(e.args[0])).e
+        if e.is_Pow and e.args[1] == sp.Rational(-1, 2) and e.args[0].is_Rational and e.args[0] > 0:
+            return 1 / s_sqrt(Sym(e.args[0])).e
+        if e.is_Add or e.is_Mul:
+            return e.func(*[rec(a) for a in e.args])
+        if e.is_Pow and e.args[1].is_Integer:
+            return rec(e.args[0]) ** e.args[1]
+        ok[0] = False
+        return e
+    r = rec(x)
+    return r if ok[0] else None
 
 
 def _note_numeric(p, sym, val):
